@@ -2,7 +2,30 @@
 import copy
 import itertools
 
+import os
+
+import vlib
 from vlib import cz, czl, cbl, cbool, copt, clist
+
+
+def regen(repo=None):
+    """Tie (T): regenerate coq/Gen/C01_gen.v from the working tree's deap/base.py. Returns (ok, message)."""
+    import c01_py2coq
+    repo = repo or vlib.REPO
+    try:
+        txt = c01_py2coq.translate(open(os.path.join(repo, "deap", "base.py")).read())
+    except c01_py2coq.Refuse as e:
+        return False, "translator refused: %s" % e
+    except SyntaxError as e:
+        return False, "translator refused: syntax error %s" % e
+    gen = os.path.join(vlib.COQ, "Gen")
+    with vlib.BuildLock():
+        os.makedirs(gen, exist_ok=True)
+        p = os.path.join(gen, "C01_gen.v")
+        old = open(p).read() if os.path.exists(p) else None
+        if old != txt:
+            open(p, "w").write(txt)
+    return True, "regenerated"
 
 
 def lex_lt(a, b):
@@ -44,6 +67,14 @@ def main(run):
                     "floats restricted to exactly representable (integer / dyadic) values, order-isomorphic to Z"]
     run.assumptions += ["fitness values are finite (no NaN)", "weights non-zero"]
     run.build_props()
+    ok, msg = regen()
+    if ok:
+        run.build_props(props="Props/C01_gen.v")
+        run.trusted.append("translator harness/c01_py2coq.py (deap/base.py -> coq/Gen/C01_gen.v), equivalence to the model proved in Proofs/C01_gen_equiv.v on every run")
+        run.extra_cov["tie"] = "translation (regenerated model proved equal to hand model) + correspondence"
+    else:
+        run.notes.append("tie: correspondence-only (%s)" % msg)
+        run.extra_cov["tie"] = "correspondence-only (%s)" % msg
     rng = run.rng
 
     classes = {}
